@@ -126,15 +126,17 @@ void run_case(Ctx &c) {
         { long i = (long)r.u(s.N); c.op("MultiTag::taggedData-default " + s.cls + (s.has_ext ? "" : " positions-only")); judge_row(c, A, s, i, RangeMatch::Exclusive, retrieve([&] { return mt.taggedData((size_t)i, (size_t)0); }), "member-default"); }
         // ---- features
         if (r.chance(0.7)) {
-            LinkType lt = r.pick(std::vector<LinkType>{LinkType::Tagged, LinkType::Untagged, LinkType::Indexed, LinkType::Indexed});
-            RArrayOpts fo; fo.max_extent = R == 3 ? 6 : 9; RArray FA = make_rarray(c, b, "feat" + str(ti), R, fo);
+            LinkType lt = r.pick(std::vector<LinkType>{LinkType::Tagged, LinkType::Tagged, LinkType::Untagged, LinkType::Indexed, LinkType::Indexed});
+            RArrayOpts fo; fo.max_extent = R == 3 ? 6 : 9;
+            // tagged features: mostly an array with the same descriptors as the reference (so that region ends fall on its samples too)
+            RArray FA = (lt == LinkType::Tagged && r.chance(0.7)) ? make_rarray_like(c, b, "feat" + str(ti), A) : make_rarray(c, b, "feat" + str(ti), R, fo);
             if (lt == LinkType::Indexed && r.chance(0.7)) {   // give the feature array N slices along the first dimension
                 FA.shape[0] = s.N + (long)r.u(2); FA.da.dataExtent(to_nd(FA.shape)); long n = ArrayModel::nelms(FA.shape); std::vector<double> lin((size_t)n); for (long j = 0; j < n; j++) lin[(size_t)j] = (double)j;
                 FA.da.setData(DataType::Double, lin.data(), to_nd(FA.shape), NDSize(R, 0));
             }
             c.op("createFeature " + link_type_to_string(lt));
             Feature ft = mt.createFeature(FA.da, lt);
-            RangeMatch m = r.chance(0.5) ? RangeMatch::Inclusive : RangeMatch::Exclusive;
+            for (RangeMatch m : {RangeMatch::Inclusive, RangeMatch::Exclusive})
             for (long i = 0; i < s.N + 1; i++) {
                 c.op(std::string("featureData ") + link_type_to_string(lt) + " " + rm_name(m));
                 Got g = retrieve([&] { return r.chance(0.5) ? util::featureData(mt, (ndsize_t)i, (ndsize_t)0, m) : util::featureData(mt, (ndsize_t)i, ft, m); });
@@ -145,8 +147,11 @@ void run_case(Ctx &c) {
                 } else if (lt == LinkType::Untagged) {
                     Box want; want.lo.assign(R, 0); want.hi = FA.shape; for (auto &h : want.hi) h -= 1;
                     std::string d = compare_box(FA, want, g); c.check(d.empty(), "C06/feature/untagged-whole", [&] { return d + " | " + FA.describe(); });
-                } else if (s.units.empty() && s.k == (long)R) {
-                    MSpec sf = s; sf.factor.assign((size_t)s.k, 1.0);
+                } else if (s.k == (long)R) {
+                    // the tag's units are scaled to the feature array's own dimension units
+                    MSpec sf = s; bool scalable = true;
+                    for (size_t d = 0; d < R && !s.units.empty(); d++) { const std::string &fu = FA.ax[d].unit; sf.factor[d] = 1.0; if (s.units[d] == "none" || (fu.empty() && FA.ax[d].kind >= Axis::Set)) continue; if (fu.empty() || !util::isScalable(s.units[d], fu)) { scalable = false; break; } sf.factor[d] = util::getSIScaling(s.units[d], fu); }
+                    if (!scalable) { c.count("unjudged:feature-units-not-scalable"); continue; }
                     Box want = row_box(FA, sf, i, m, 0); std::string d = compare_box(FA, want, g);
                     c.check(d.empty(), std::string("C06/feature/tagged/") + rm_name(m), [&] { return d + " | feature " + FA.describe() + row_show(s, i); });
                 }
